@@ -64,11 +64,18 @@ CHECKS = {
         "is raised exactly when one is reported, it is the earliest active terminal event in the direction of integration, everything "
         "reported is sorted; the stop is an ordinary integrate(root) call, so the C03 theorem gives 'last recorded time within tolerance of "
         "the event time, nothing beyond'. Compared on the implementation: stop time, last state on the event surface, nothing beyond, "
-        "status, monotone trajectory, dense-output order, continuation to the requested end. Known findings: dense output keeps the piece "
-        "of the rolled-back step (P11); event time located on the cubic dense output.",
-   note="Trusted: Lean kernel, standard axioms, harness. The roll-back and the recursion into integrate(root) are not part of the loop model; "
-        "their effect is compared on the implementation.",
-   technique="Lean 4 proof (truncation lemmas + C03 loop theorem) + per-step replay + terminal-stop oracles",
+        "status, monotone trajectory, dense-output order, continuation to the requested end. The whole call with events is a second Lean "
+        "model (DV.LoopEv: the event step is written but not counted, selection and book-keeping computed by the model, roll-back, nested "
+        "integrate(root), status 2, dt update and one callback round after the stop, up to three buffer growths per iteration, faults at "
+        "every site), replayed bit for bit against integrate(t, events=...) on seeded operation sequences; theorems: "
+        "terminal_stop_reports_status_two, terminal_stop_lands_on_event (the samples after a stop are those recorded before the event "
+        "step followed by the nested call's steps, which end within max(eps, tolEps) of the root). Known findings: event time located on "
+        "the cubic dense output.",
+   note="Trusted: Lean kernel, standard axioms, harness. Inputs of the event-loop model (oracle): integrator returns, callback actions, the "
+        "probes delivered by the root finder and the sampled event functions (C14, C08), whether handle_events raises. Dense output and "
+        "states are compared on the implementation.",
+   technique="Lean 4 proof (truncation lemmas + C03 loop theorem + event-loop model DV.LoopEv with one invariant over all exits) + "
+             "bit-exact replay of whole calls with events + terminal-stop oracles",
    design="5 (C07-C09)"),
  "C15": dict(
    text="Partial proof. The convergence of the iterations is numerical analysis and is not proved. Proved on a Lean model of the decision "
@@ -171,10 +178,12 @@ CHECKS = {
         "the status reports failure (3) or keyboard interrupt (4), the buffers are trimmed, a call that returns normally afterwards reports "
         "success, and any later call sequence extends the kept prefix monotonically (C03 theorems admit faults). Tied to the code by replay "
         "of fault scenarios and by exhaustive crash-point enumeration on the real OdeSystem (every rhs evaluation / callback / event "
-        "evaluation of short runs of 6 method families, both directions; prefix bit for bit, cause chaining, resume, reset). Known finding: "
-        "a raising event function leaves the dense piece of the dropped step.",
-   note="Trusted: Lean kernel, standard axioms, harness. Outside the model: integrator-internal state after a fault, dense-output "
-        "container, event evaluation sites (checked by the enumeration on the implementation only).",
+        "evaluation of short runs of 6 method families, both directions; prefix bit for bit, cause chaining, resume, reset). Calls with "
+        "events are covered by the event-loop model DV.LoopEv (theorem event_call_keeps_what_was_recorded: for every behaviour of the "
+        "integrator, the event functions - a raising one drops the step -, the callbacks and the nested call of a terminal event, the "
+        "samples and events recorded before the call stay in place), replayed bit for bit on fault-heavy operation sequences.",
+   note="Trusted: Lean kernel, standard axioms, harness. Outside the models: integrator-internal state after a fault, dense-output "
+        "container (checked by the enumeration on the implementation only).",
    technique="Lean 4 proof (induction over the fault position) + crash-point enumeration + bit-exact replay",
    design="5 (C12)"),
  "C13": dict(
